@@ -1,7 +1,9 @@
 package codex
 
 // C18 — execution requests (execInitMsg.ToBytes / GetCmd) and window sizes
-// (serializeSize / readSize) round-trip.
+// (serializeSize / readSize) round-trip. Every decode is repeated with the same
+// bytes delivered in pieces (wire.Delivery: short reads, (0, nil) results,
+// end-of-stream reported with the last bytes) and must give the same result.
 
 import (
 	"bytes"
@@ -32,6 +34,28 @@ type c18Exec struct {
 	TermSeed uint64    `json:"tseed"`
 	Size     *c18Size  `json:"size"`
 	Binary   bool      `json:"bin"` // arbitrary bytes instead of printable text
+	// how the bytes are handed to GetCmd the second time (zero value: in one piece only)
+	Dlv wire.Delivery `json:"dlv"`
+}
+
+// c18ExecRedeliver: GetCmd on the same bytes under the delivery pattern d.
+func c18ExecRedeliver(v *vlib.Verdict, in []byte, sentinel bool, d wire.Delivery, accepted bool, consumed int, cmd, term string, usePty bool, size *pty.Winsize) {
+	wire.Redeliver(v, "C18", "codex.GetCmd", in, sentinel, d, accepted, consumed, func(st *wire.Stream) (string, string, error) {
+		aCmd, aTerm, aPty, aSize, err := GetCmd(&wire.Conn{Stream: st})
+		switch {
+		case err != nil:
+			return "", "", err
+		case aCmd != cmd:
+			return "cmd", fmt.Sprintf("%d bytes %.40q instead of %d bytes %.40q", len(aCmd), aCmd, len(cmd), cmd), nil
+		case aTerm != term:
+			return "term", fmt.Sprintf("%d bytes %.40q instead of %d bytes %.40q", len(aTerm), aTerm, len(term), term), nil
+		case aPty != usePty:
+			return "usePty", fmt.Sprintf("%v instead of %v", aPty, usePty), nil
+		case !c18SizeEq(aSize, size):
+			return "size", fmt.Sprintf("%s instead of %s", c18SizeStr(aSize), c18SizeStr(size)), nil
+		}
+		return "", "", nil
+	})
 }
 
 func (c c18Exec) strings() (cmd, term string) {
@@ -98,6 +122,8 @@ func c18ExecRunA(c c18Exec, v *vlib.Verdict) {
 		v.Failf("C18:roundtrip-mismatch:codex.execInitMsg:size", "size %s decodes as %s", c18SizeStr(size), c18SizeStr(gSize))
 	case st.Consumed != len(enc):
 		v.Failf("C18:consumed-length:codex.execInitMsg", "encoding has %d bytes, GetCmd consumed %d", len(enc), st.Consumed)
+	default:
+		c18ExecRedeliver(v, enc, true, c.Dlv, true, len(enc), gCmd, gTerm, gPty, gSize)
 	}
 }
 
@@ -111,6 +137,7 @@ func c18ExecGen(t *rapid.T) c18Exec {
 		TermLen:  wire.DrawLen(t, "tlen", 70000),
 		TermSeed: rapid.Uint64().Draw(t, "tseed"),
 		Binary:   rapid.Bool().Draw(t, "bin"),
+		Dlv:      wire.DrawDelivery(t),
 	}
 	if rapid.Bool().Draw(t, "shortterm") {
 		c.TermLen = rapid.IntRange(0, 20).Draw(t, "tlen2")
@@ -128,10 +155,14 @@ func TestVerifC18ExecEncDec(t *testing.T) {
 
 // window-size messages: every combination of the edge values
 func TestVerifC18WinsizeSweep(t *testing.T) {
-	run := func(c c18Size, v *vlib.Verdict) {
+	type sizeCase struct {
+		c18Size
+		Dlv wire.Delivery `json:"dlv"`
+	}
+	run := func(c sizeCase, v *vlib.Verdict) {
 		v.NonTrivial = true
 		v.Label("winsize")
-		in := c.value()
+		in := c.c18Size.value()
 		b := make([]byte, 8)
 		var got *pty.Winsize
 		var err error
@@ -145,7 +176,15 @@ func TestVerifC18WinsizeSweep(t *testing.T) {
 		}
 		if err != nil || !c18SizeEq(got, in) || st.Consumed != 8 {
 			v.Failf("C18:roundtrip-mismatch:codex.Winsize", "size %s reads back as %s (err=%v), consumed %d of 8", c18SizeStr(in), c18SizeStr(got), err, st.Consumed)
+			return
 		}
+		wire.Redeliver(v, "C18", "codex.readSize", b, true, c.Dlv, true, 8, func(st *wire.Stream) (string, string, error) {
+			again, err := readSize(st)
+			if err == nil && !c18SizeEq(again, got) {
+				return "size", fmt.Sprintf("%s instead of %s", c18SizeStr(again), c18SizeStr(got)), nil
+			}
+			return "", "", err
+		})
 	}
 	if vlib.ReplayEnumerated(t, "C18", run) {
 		return
@@ -160,7 +199,7 @@ func TestVerifC18WinsizeSweep(t *testing.T) {
 					if !rec.Mine(i) {
 						continue
 					}
-					if !vlib.Each(t, rec, c18Size{r, c, x, y}, run) {
+					if !vlib.Each(t, rec, sizeCase{c18Size{r, c, x, y}, wire.DeliveryFor(uint64(i))}, run) {
 						return
 					}
 				}
@@ -168,7 +207,7 @@ func TestVerifC18WinsizeSweep(t *testing.T) {
 		}
 	}
 	rec.SetExhaustive(true)
-	rec.Extra("enumerated", "window sizes: 8^4 combinations of 16-bit edge values")
+	rec.Extra("enumerated", "window sizes: 8^4 combinations of 16-bit edge values; delivery pattern cycled through wire.DeliveryFor")
 }
 
 // c18HandEncodeExec builds a valid execution request by hand and lists its
@@ -245,13 +284,14 @@ func c18ExecRunB(c c18ExecB, v *vlib.Verdict) {
 	if len(c.Muts) == 0 && flags&^3 == 0 {
 		valid = []any{cmd, term, c.Base.UsePty, c18SizeStr(size)}
 	}
-	c18ExecBytesB(in, valid, len(c.Muts) == 0, v)
+	c18ExecBytesB(in, valid, len(c.Muts) == 0, c.Base.Dlv, v)
 }
 
 // c18ExecBytesB: decode -> encode -> decode on raw bytes whose length fields
 // were bounded by c18ExecBoundLens. valid, when not nil, is what the bytes were
-// built from by hand.
-func c18ExecBytesB(in []byte, valid []any, unmutated bool, v *vlib.Verdict) {
+// built from by hand. dlv: the delivery pattern under which the bytes are
+// decoded once more.
+func c18ExecBytesB(in []byte, valid []any, unmutated bool, dlv wire.Delivery, v *vlib.Verdict) {
 	var sz *pty.Winsize
 	dec := func(b []byte) (r [4]any, consumed int, err error, panicked bool) {
 		st := &wire.Stream{Data: b}
@@ -265,6 +305,14 @@ func c18ExecBytesB(in []byte, valid []any, unmutated bool, v *vlib.Verdict) {
 	}
 	v1, consumed, derr, p := dec(in)
 	if p {
+		return
+	}
+	if derr == nil {
+		c18ExecRedeliver(v, in, false, dlv, true, consumed, v1[0].(string), v1[1].(string), v1[2].(bool), sz)
+	} else {
+		c18ExecRedeliver(v, in, false, dlv, false, consumed, "", "", false, nil)
+	}
+	if !v.OK() {
 		return
 	}
 	if derr != nil {
@@ -333,7 +381,7 @@ func FuzzVerifC18ExecInit(f *testing.F) {
 	f.Add(newExecInitMsg(false, "", "", nil).ToBytes())
 	f.Fuzz(func(t *testing.T, in []byte) {
 		var v vlib.Verdict
-		c18ExecBytesB(c18ExecBoundLens(append([]byte(nil), in...)), nil, false, &v)
+		c18ExecBytesB(c18ExecBoundLens(append([]byte(nil), in...)), nil, false, wire.DeliveryFor(wire.Hash64(in)), &v)
 		for _, vi := range v.Violations {
 			if !vlib.KnownOpen(vi.Sig) {
 				t.Fatalf("VERIF-VIOLATION sig=%s detail=%s", vi.Sig, vi.Detail)
